@@ -597,11 +597,14 @@ impl Debugger {
                                 print_warns!(self.watchpoints.refresh(&self.debugee));
 
                                 // rendezvous already available at this point
-                                let brk = self.debugee.rendezvous().r_brk();
-                                self.breakpoints.add_and_enable(Breakpoint::new_linker_map(
-                                    brk,
-                                    self.process.pid(),
-                                ))?;
+                                // (statically linked programs have none)
+                                if let Some(rendezvous) = self.debugee.rendezvous_opt() {
+                                    let brk = rendezvous.r_brk();
+                                    self.breakpoints.add_and_enable(Breakpoint::new_linker_map(
+                                        brk,
+                                        self.process.pid(),
+                                    ))?;
+                                }
 
                                 // check oracles is ready
                                 let oracles = self.oracles.clone();
